@@ -1162,3 +1162,8 @@ Proof.
 Qed.
 
 End Queries.
+
+(* width 64 is never produced by the rule; if it were, every split of an index would fail the shift check of a
+   debug build (and shift by 0 in a release build) *)
+Lemma split_w_64_debug i : split_w Debug 64 i = Panic POverflow.
+Proof. reflexivity. Qed.
